@@ -106,6 +106,15 @@ func c19Cases(tier string) []c19Case {
 			out = append(out, c19Case{2, 1, fp, 0, d, []int64{10, 10, 10}, "hub", "ethereum", -1, false, 0, false, true})
 		}
 	}
+	// several hub withdrawals of ONE transaction (they share its hash) in a batch with transfers from Minter, cheap gas:
+	// the surplus is shared among the transfers, not among the transaction hashes
+	for _, sz := range []int{4, 5} {
+		for _, sp := range []int{0, 1} {
+			for _, d := range []uint64{6, 18} {
+				out = append(out, c19Case{sz, sp, 3, 0, d, []int64{10, 10, 10}, "mixed", "ethereum", -1, false, 0, true, false})
+			}
+		}
+	}
 	// two withdrawals with different fees in one hub transaction
 	for _, d := range []uint64{6, 18} {
 		out = append(out, c19Case{2, 1, 1, 0, d, []int64{10, 10, 10}, "hub", "ethereum", -1, false, 0, true, false})
@@ -242,9 +251,13 @@ func c19Run(in *hub.Instance, cs c19Case) (res c19Res) {
 	txhash := make([]string, cs.Size)
 	refundAddr := make([]string, cs.Size)
 	evNonce := uint64(0)
+	sharedHash := ""
 	if cs.OneTx {
 		var msgs []sdk.Msg
 		for i := 0; i < cs.Size; i++ {
+			if origin(i) != "hub" {
+				continue
+			}
 			msgs = append(msgs, mhubtypes.NewMsgSendToExternal(mhubtypes.ChainID(cs.Chain), users[i], hub.HexAddr(fmt.Sprintf("rc%d", i)), sdk.NewCoin("hub", sdk.NewIntFromBigInt(amount)), sdk.NewCoin("hub", sdk.NewIntFromBigInt(fees[i]))))
 		}
 		r := in.DeliverMsgs(msgs...)
@@ -253,10 +266,16 @@ func c19Run(in *hub.Instance, cs c19Case) (res c19Res) {
 			return
 		}
 		for i := range txhash {
-			txhash[i] = r.TxHash
+			if origin(i) == "hub" {
+				txhash[i] = r.TxHash
+			}
 		}
+		sharedHash = r.TxHash
 	}
-	for i := 0; i < cs.Size && !cs.OneTx; i++ {
+	for i := 0; i < cs.Size; i++ {
+		if origin(i) == "hub" && cs.OneTx {
+			continue
+		}
 		if origin(i) == "hub" {
 			r := in.DeliverMsg(mhubtypes.NewMsgSendToExternal(mhubtypes.ChainID(cs.Chain), users[i], hub.HexAddr(fmt.Sprintf("rc%d", i)), sdk.NewCoin("hub", sdk.NewIntFromBigInt(amount)), sdk.NewCoin("hub", sdk.NewIntFromBigInt(fees[i]))))
 			if !r.OK() {
@@ -451,10 +470,13 @@ func c19Run(in *hub.Instance, cs c19Case) (res c19Res) {
 	}
 	if cs.OneTx {
 		// the transfers share the transaction hash and with it the fee record: it can report the fee kept of one of them only
-		rec := in.Hub.GetTxFeeRecord(in.Ctx(), txhash[0])
+		rec := in.Hub.GetTxFeeRecord(in.Ctx(), sharedHash)
 		for _, tx := range bt.Transactions {
+			if tx.TxHash != sharedHash {
+				continue
+			}
 			if rec == nil || !rec.ExternalFee.Equal(tx.Fee.Amount) {
-				bad("fee_record_differs_from_fee_kept", "batchTxExecuted(TxFeeRecord of transfers sharing one transaction hash)", "transfer %d of transaction %s paid and kept fee %s external units, the fee record of its transaction reports %v", tx.Id, txhash[0][:8], tx.Fee.Amount, rec)
+				bad("fee_record_differs_from_fee_kept", "batchTxExecuted(TxFeeRecord of transfers sharing one transaction hash)", "transfer %d of transaction %s paid and kept fee %s external units, the fee record of its transaction reports %v", tx.Id, sharedHash[:8], tx.Fee.Amount, rec)
 			}
 		}
 		res.outcome = "executed (two transfers of one transaction)"
